@@ -205,6 +205,13 @@ pub struct TraceCase {
     /// carrying TCP, 2 = like an IPv6 header carrying TCP (a decoder that tried raw IP before Ethernet would be misled)
     #[serde(default)]
     pub macs: u8,
+    /// Ethernet link only: 0 = frames as built, 1 = zero padding up to the 60-byte minimum frame size, 2 = padding + 4-byte FCS
+    #[serde(default)]
+    pub wire: u8,
+    /// IPv4 only: fragment-offset field written into every packet (0 = not fragmented). The analyzers' decoders do not look at it,
+    /// so the results are the same; components that read the header on their own (filters, dispatch hashers) must agree
+    #[serde(default)]
+    pub frag: u16,
 }
 
 impl TraceCase {
@@ -217,6 +224,45 @@ impl TraceCase {
                 for p in l.iter_mut() {
                     if p.frame.len() >= 14 {
                         p.frame[..12].copy_from_slice(&pair);
+                    }
+                }
+            }
+        }
+        if self.frag & 0x1fff != 0 && self.link != Link::Null {
+            let off = if self.link == Link::Ether { 14 } else { 0 };
+            for l in lists.iter_mut() {
+                for p in l.iter_mut() {
+                    let f = &mut p.frame;
+                    if f.len() >= off + 20 && f[off] >> 4 == 4 {
+                        let flags = f[off + 6] & 0xe0;
+                        f[off + 6] = flags | ((self.frag >> 8) as u8 & 0x1f);
+                        f[off + 7] = self.frag as u8;
+                        // header checksum
+                        let ihl = ((f[off] & 0x0f) as usize * 4).max(20).min(f.len() - off);
+                        f[off + 10] = 0;
+                        f[off + 11] = 0;
+                        let mut sum = 0u32;
+                        for k in (0..ihl).step_by(2) {
+                            sum += u16::from_be_bytes([f[off + k], *f.get(off + k + 1).unwrap_or(&0)]) as u32;
+                        }
+                        while sum >> 16 != 0 {
+                            sum = (sum & 0xffff) + (sum >> 16);
+                        }
+                        let c = !(sum as u16);
+                        f[off + 10] = (c >> 8) as u8;
+                        f[off + 11] = c as u8;
+                    }
+                }
+            }
+        }
+        if self.link == Link::Ether && self.wire % 3 != 0 {
+            for l in lists.iter_mut() {
+                for p in l.iter_mut() {
+                    if p.frame.len() < 60 {
+                        p.frame.resize(60, 0);
+                    }
+                    if self.wire % 3 == 2 {
+                        p.frame.extend_from_slice(&[0xde, 0xad, 0xbe, 0xef]);
                     }
                 }
             }
@@ -267,7 +313,9 @@ pub fn script(allow_h2: bool) -> impl Strategy<Value = Script> {
         2 => Just(Script::None),
         3 => (http1::request(), http1::response(), http1::body()).prop_map(|(mut req, mut resp, resp_body)| { req.headers.truncate(20); resp.headers.truncate(20); Script::Http1 { req, resp, resp_body } }),
         3 => h2,
-        3 => (tls::hello(), prop_oneof![Just(vec![]), Just(vec![0x14, 3, 3, 0, 1, 1]), vec(any::<u8>(), 1..30).prop_map(|mut v| { v[0] = 0x17; v })]).prop_map(|(mut hello, after)| {
+        3 => (tls::hello(), prop_oneof![3 => Just(vec![]), 2 => Just(vec![0x14, 3, 3, 0, 1, 1]), 3 => vec(any::<u8>(), 1..30).prop_map(|mut v| { v[0] = 0x17; v }),
+            // a mixed connection: cleartext HTTP after the ClientHello (what each analyzer keeps of the hello decides what it makes of the request)
+            2 => Just(b"GET /after-hello HTTP/1.1\r\nHost: mixed.test\r\nUser-Agent: curl/8.0\r\nAccept: */*\r\n\r\n".to_vec())]).prop_map(|(mut hello, after)| {
             // keep records inside the RFC fragment limit so that the hello is reportable
             if let Some(e) = hello.extensions.as_mut() { e.truncate(25); }
             hello.ciphers.truncate(60);
@@ -313,7 +361,7 @@ pub fn conn(allow_h2: bool) -> impl Strategy<Value = Conn> {
 
 /// 1..max connections with pairwise distinct (and non-reversed) 4-tuples and pairwise distinct TSvals
 pub fn trace_case(max_conns: usize, allow_h2: bool) -> impl Strategy<Value = TraceCase> {
-    (vec(conn(allow_h2), 1..=max_conns), vec(any::<u16>(), 0..60), prop_oneof![4 => Just(Link::Ether), 1 => Just(Link::Raw)], prop_oneof![3 => Just(0u8), 1 => Just(1u8), 1 => Just(2u8)]).prop_map(|(conns, schedule, link, macs)| {
+    (vec(conn(allow_h2), 1..=max_conns), vec(any::<u16>(), 0..60), prop_oneof![4 => Just(Link::Ether), 1 => Just(Link::Raw)], prop_oneof![3 => Just(0u8), 1 => Just(1u8), 1 => Just(2u8)], prop_oneof![3 => Just(0u8), 1 => Just(1u8), 1 => Just(2u8)], prop_oneof![8 => Just(0u16), 1 => Just(1u16), 1 => Just(185u16), 1 => Just(0x1fffu16)]).prop_map(|(conns, schedule, link, macs, wire, frag)| {
         let mut seen = std::collections::BTreeSet::new();
         let mut kept: Vec<Conn> = vec![];
         for (i, mut c) in conns.into_iter().enumerate() {
@@ -329,6 +377,6 @@ pub fn trace_case(max_conns: usize, allow_h2: bool) -> impl Strategy<Value = Tra
             // raw-IP frames must not look like Ethernet to the Ethernet-first decoder: the address pool guarantees it
             kept.push(c);
         }
-        TraceCase { conns: kept, schedule, link, macs }
+        TraceCase { conns: kept, schedule, link, macs, wire, frag }
     })
 }
